@@ -537,6 +537,14 @@ pub fn run(a: &Args, m: &mut Mon) {
             let alpha = alphabet_for(&ends, false);
             explore(m, false, &ends, &alpha, 1_000_000);
         }
+        // one function longer than 2^16 segments
+        let big: Vec<f64> = (0..70_001).map(|i| (i / 3) as f64 * 0.5).collect();
+        let pw = tag_pw(&big);
+        for pol in [Policy::Jumps, Policy::Down, Policy::LastFirst, Policy::ExactHits] {
+            let hist = gen_history(&mut r, &big, 40, pol);
+            tag_history(m, false, &big, &pw, &hist, "history");
+        }
+        m.count("function_longer_than_65536");
     }
     let nh = a.n(1_200_000, 100_000_000);
     workload_a(a, m, &mut r, nh, false, 100_000);
